@@ -94,9 +94,9 @@ def san_class(line):
     return "crash"
 
 
-def build(ctx):
+def build(ctx, mode="san"):
     import psvlib
-    return ctx.compile("fit_san", ["fit_harness.cpp"], repo_c=psvlib.FITTER_C, libs=psvlib.FITTER_LIBS, **HARNESS_KW)
+    return ctx.compile("fit_" + mode, ["fit_harness.cpp"], mode=mode, defines=HARNESS_KW["defines"], repo_c=psvlib.FITTER_C, libs=psvlib.FITTER_LIBS)
 
 
 def compare(ctx, cases, impl, model, stats):
@@ -196,13 +196,21 @@ def run(ctx):
     rc, out, err = ctx.run([exe, "gen", str(nrandom), cases, stats])
     if rc != 0:
         ctx.tie_ok = False; ctx.broken.append({"kind": "generator failed", "stderr": err[-800:]}); return
-    r = run_cases(ctx, exe, cases)
-    if not r: return
-    impl, model = r
-    cl, il, ml = open(cases).readlines(), open(impl).readlines(), open(model).readlines()
-    if not (len(cl) == len(il) == len(ml)):
-        ctx.tie_ok = False; ctx.broken.append({"kind": "line count mismatch", "cases": len(cl), "impl": len(il), "model": len(ml)})
-    n, seen, hist = compare(ctx, cl, il, ml, stats)
+    n = 0; seen = set(); hist = collections.Counter()
+    # sanitizer build always; the as-shipped build (-O3 -DNDEBUG) additionally in the thorough tier
+    for mode in (["san"] if ctx.tier == "quick" else ["san", "shipped"]):
+        exe_m = exe if mode == "san" else build(ctx, mode)
+        if not exe_m:
+            ctx.tie_ok = False; ctx.broken.append({"kind": "harness build failed", "mode": mode}); continue
+        r = run_cases(ctx, exe_m, cases)
+        if not r: continue
+        impl, model = r
+        cl, il, ml = open(cases).readlines(), open(impl).readlines(), open(model).readlines()
+        if not (len(cl) == len(il) == len(ml)):
+            ctx.tie_ok = False; ctx.broken.append({"kind": "line count mismatch", "mode": mode, "cases": len(cl), "impl": len(il), "model": len(ml)})
+        n_m, seen_m, hist_m = compare(ctx, cl, il, ml, stats)
+        n += n_m; seen |= seen_m
+        if mode == "san": hist = hist_m
     ctx.coverage["evaluations"] = n
     ctx.coverage["distinct_nontrivial"] = len(seen)
     ctx.coverage["rule"] = ("cases from harness/fit_harness.cpp gen (VERIF_SEED): 36 plain valid fits, every single (argument, variant) "
